@@ -93,7 +93,7 @@ func (b *Buffered[T]) RemoveFront() *T {
 	b.ring = b.ring.Next()
 
 	b.end--
-	if b.ring.Len()-b.end > b.bsize*2 {
+	if b.ring.Len()-b.end-b.bsize > b.bsize {
 		b.ring.Move(b.end).Unlink(b.bsize)
 	}
 
